@@ -5,7 +5,7 @@ import time
 import z3
 
 from . import registry as R
-from .engine import (GEN, NOTATION, Ctx, Engine, Obligation, State, Unsupported, V, VNONE, _fresh, exc_isa, fresh_value,
+from .engine import (GROUPS, GEN, NOTATION, Ctx, Engine, Obligation, State, Unsupported, V, VNONE, _fresh, exc_isa, fresh_value,
                      lift, py)
 from .frontend import own_loops
 from .sorts import NONE, PY
@@ -221,12 +221,12 @@ def frame_obligations(eng, c, st, node):
         if "@" in m:
             base, expr = m.split("@", 1)
             ov = SpecEval(eng, _pre_view(st), pre_state=None).value(expr)
-            names = ["list.len", "list.I", "list.R", "list.S", "list.nan"] if base == "list" else [base, base + "#n"]
+            names = list(GROUPS[base]) if base in GROUPS else [base, base + "#n"]
             for nm in names:
                 gran.setdefault(nm, []).append(lift(ov).t)
             continue
-        if m == "list":
-            mods |= {"list.len", "list.I", "list.R", "list.S", "list.nan"}
+        if m in GROUPS:
+            mods |= set(GROUPS[m])
         else:
             mods |= {m, m + "#n"}
     alloc0 = st.old.heap.alloc
